@@ -14,11 +14,11 @@ type targetPanic struct{ v value }
 type endKind int
 
 const (
-	endInfeasible endKind = iota // assumption false / infeasible branch
-	endUnwind                    // step or unwinding bound exceeded
-	endUnsupported               // construct/external outside the engine
-	endUnknown                   // solver unknown on a needed query
-	endStop                      // harness asked to stop the path (verifStop)
+	endInfeasible  endKind = iota // assumption false / infeasible branch
+	endUnwind                     // step or unwinding bound exceeded
+	endUnsupported                // construct/external outside the engine
+	endUnknown                    // solver unknown on a needed query
+	endStop                       // harness asked to stop the path (verifStop)
 )
 
 func (k endKind) String() string {
